@@ -18,6 +18,13 @@ def known_key(rec, kind, m, r):
     if kind == "spurious-panic" and m.startswith("(ok") and r.startswith("(panic Overflow") \
             and NEG_LITERAL_FACTOR.search(rec.get("src", "")):
         return "const-mul-rewrite-intermediate-overflow"
+    # the recorded defect of the checker (C05: an unsuffixed literal bound by let / for / a pattern keeps 32 wires, the
+    # identifier is re-typed at a later use): the typed tree fails the reference rules Wt.v AND the model of the
+    # unchanged checker (Check/Infer.v) returns the same typed tree - a NEW width divergence differs from the model
+    if rec.get("wt") is False and rec.get("checker_tie") == "accepted: same typed program":
+        import c05
+        if c05.UNSUFFIXED.search(re.sub(r"//[^\n]*", "", rec.get("src", ""))):
+            return "c01-literal-width-divergence"
     return None
 
 
@@ -74,6 +81,17 @@ def run_prog_property(ck, pid, prop_file, kinds, n_gen_quick, n_gen_thorough, st
     stats["evaluations"] += dstats["evaluations"]
     for key in ("tsem_compared", "tsem_outside", "outside_model", "model_ok", "model_panic"):
         stats[key] = stats.get(key, 0) + dstats.get(key, 0)
+    # programs whose typed tree the reference rules reject: ask the checker-model tie about them (see known_key)
+    illtyped = {}
+    for rec, *_ in issues:
+        if rec.get("wt") is False:
+            illtyped[rec["name"]] = rec
+    if illtyped:
+        import checktie
+        checktie.check_tie_pass(ck, [(n, r["src"]) for n, r in illtyped.items()], pid.lower() + ".wt")
+        tv = getattr(ck, "checker_tie_verdicts", {}) or {}
+        for n, r in illtyped.items():
+            r["checker_tie"] = tv.get(n)
     nviol = 0
     other_kinds = {}
     for rec, cfg, k, kind, m, r in issues:
@@ -105,8 +123,23 @@ def run_prog_property(ck, pid, prop_file, kinds, n_gen_quick, n_gen_thorough, st
                              {"program": rec["src"], "inputs_per_param": rec["inss"][k] if k >= 0 else None,
                               cfg: res[k] if k >= 0 else res, runs[0][0]: runs[0][1][k] if k >= 0 else runs[0][1]})
     crashes = [rec for rec in recs if rec["status"] == "crash"]
+    if crashes:
+        # the recorded checker defect also shows as a compiler panic (branches of different widths): recognised as for
+        # wrong values - typed tree fails Wt.v and the model of the unchanged checker agrees (or, outside that model, the
+        # program binds an unsuffixed literal)
+        import checktie, c05
+        checktie.check_tie_pass(ck, [(r["name"], r["src"]) for r in crashes], pid.lower() + ".crash")
+        tv = getattr(ck, "checker_tie_verdicts", {}) or {}
+        for r in crashes:
+            r["checker_tie"] = tv.get(r["name"])
     for rec in crashes[:3]:
-        ck.violation("the compiler panics / hangs on a generated program", {"program": rec["src"], "rust": rec["rust_raw"]})
+        key = None
+        if rec.get("wt") is False and c05.UNSUFFIXED.search(re.sub(r"//[^\n]*", "", rec["src"])):
+            t = rec.get("checker_tie")
+            if t == "accepted: same typed program" or (t in (None, "outside-model", "model-out-of-fuel", "model-job-failed")
+                                                        and c05.binds_unsuffixed(rec["src"])):
+                key = "c01-literal-width-divergence"
+        ck.violation("the compiler panics / hangs on a generated program", {"program": rec["src"], "rust": rec["rust_raw"]}, key=key)
     accepted = stats["compiled"] / max(1, stats["programs"])
     ck.obligation("generator health: at least 80% of the generated programs are accepted by the real checker",
                   accepted >= 0.8, f"accepted fraction {accepted:.2f}")
